@@ -317,6 +317,24 @@ Theorem C05_decomposition_delivery : forall two ign src dst (dec : c05_decomp) (
 Proof. exact PM_decomposition_delivery. Qed.
 Print Assumptions C05_decomposition_delivery.
 
+(* aliasing (one container per rank, as in forward(data) or forward(data, data) with the same object twice): the instance
+   source container = target container; every scattered value is one the container held BEFORE the communication *)
+Theorem C05_one_container_delivery : forall two ign src dst (dec : c05_decomp) (Dc : nat -> c05_data) (sz : nat -> nat),
+  (forall p, NoDup (map c05_ie_g (fst (nth p dec ([], [])))) /\ NoDup (map c05_ie_g (snd (nth p dec ([], []))))) ->
+  (forall p e, In e (fst (nth p dec ([], []))) -> c05_getsize (Dc p) (c05_ie_l e) = sz (c05_ie_g e)) ->
+  (forall p e, In e (snd (nth p dec ([], []))) -> c05_getsize (Dc p) (c05_ie_l e) = sz (c05_ie_g e)) ->
+  forall (fwd add : bool) (orders : list (list nat)) (q : nat), q < length dec ->
+  let ifs := c05_dec_ifs two ign src dst dec in
+  let szs := fun (p l : nat) => c05_getsize (Dc p) l in
+  Permutation (nth q orders []) (map fst (c05_recvs fwd (c05_g_cm ifs szs szs q))) ->
+  exists d' log',
+    nth q (c05_phase add fwd (map (c05_g_cm ifs szs szs) (seq 0 (length dec))) (map Dc (seq 0 (length dec))) (map Dc (seq 0 (length dec))) orders) C05_Stuck
+      = C05_Ok d' log' /\
+    Permutation log' (c05_g_pair_calls fwd ifs Dc szs szs q) /\
+    d' = c05_apply_calls add (Dc q) log' /\ c05_shape d' = c05_shape (Dc q).
+Proof. exact PM_one_container_delivery. Qed.
+Print Assumptions C05_one_container_delivery.
+
 (* ------------------------------------------------------------------ the ORACLE of the check is the model's delivery
    checks/C05.py judges the impl with the extracted c05_spec_interface / c05_spec_scatter_fwd / c05_spec_scatter_bwd, which are
    set comprehensions over the RAW decomposition (the documentation's i^s, i^t and "every matched pair").  These theorems close
